@@ -8,6 +8,7 @@ CONSTANTS
   MaxSend = 4
   MaxAdv = 9
   CacheMax = 16
+  Extras = {}
   Asks = {FALSE, TRUE}
   Fam = "answer"
   Depth = 0
